@@ -17,7 +17,7 @@ RTOL = 1e-10
 
 PIX = {"None": None, "3": (0.1, 0.2, 0.3), "13": [(0.1, 0.2, 0.3)], "23": [(0.1, 0.2, 0.3), (-0.2, 0.1, 0)],
        "223": [[(0.1, 0.2, 0.3), (-0.2, 0.1, 0)], [(0, 0, 0.3), (0.3, 0, 0)]]}
-KINDS = ["static_id", "static_rot", "transl", "rotpath", "rot_pm", "rot_return", "rot_half", "static_tiny", "rot_tiny"]
+KINDS = ["static_id", "static_rot", "transl", "rotpath", "rot_pm", "rot_return", "rot_half", "static_tiny", "rot_tiny", "rot_micro"]
 HANDS = ["right", "left"]
 AGGS = [None, "mean", "min", "max", "median", "std"]
 SECOND_MENU = [("23", "rot_tiny", "left"), ("23", "rotpath", "left"), ("None", "static_id", "right"), ("223", "transl", "right"),
@@ -63,6 +63,10 @@ def mk_sensor(pix, kind, hand, L, k=0, between=None):
         s.orientation = _rotax((0.3, 1, -0.2), angs if L > 1 else angs[0])
         if L > 1:
             s.position = [(3 + 0.1 * i, 2, 1 - 0.05 * i) for i in range(L)]
+    elif kind == "rot_micro":    # generic orientation followed by micro-radian steps: a rotating path, however fine
+        s.rotate_from_rotvec((0.3, -0.2, 0.5), degrees=False)
+        if L > 1:
+            s.rotate_from_angax([4e-7 * i for i in range(1, L)], (0.2, 1.0, -0.4), degrees=False)
     elif kind == "rot_half":  # unit rotation first, rotated later (the 'unrotated' shortcut must not apply)
         angs = [0, 0, 50][:L]
         s.orientation = _rotax((1, 0, 0), angs if L > 1 else 0)
@@ -219,7 +223,12 @@ def enumerate_cases(tier):
         c["precall"] = True
     for c1 in cfgs:
         for c2 in (SECOND_MENU if tier == "quick" else cfgs):
-            add([c1, c2], AGGS if tier == "thorough" else [None, "mean", "max", "std"], ("list", "nested_collection"))
+            if tier == "thorough":
+                add([c1, c2], AGGS, ("list", "nested_collection"))
+            else:
+                add([c1, c2], [None, "mean", "max", "std"], ("list",))
+                if c2 in SECOND_MENU[:2]:
+                    add([c1, c2], [None, "mean"], ("nested_collection",))
     third = THIRD_MENU
     for c1 in (SECOND_MENU if tier == "quick" else cfgs):
         for c2 in SECOND_MENU:
